@@ -214,7 +214,16 @@ def check_case(case) -> Result:
     refs, info = reference(case, seq, psi0=psi0)
     init_before = cfg.initial_state.data.clone() if psi0 is not None else None
     backend = SVBackend(seq, config=cfg)
-    res = cut(backend.run)
+    try:
+        res = cut(backend.run)
+    except Exception as e:  # noqa: BLE001
+        inner = getattr(e, "exc", None)
+        if isinstance(inner, RecursionError) and "did not converge" in str(inner):
+            # the documented, honest refusal of C07 (dt*|generator| too large for the allowed Krylov dimension, e.g. the
+            # detuning of an SLM mask with a long step): no result is returned, so nothing can be wrong; counted
+            r.discard = "krylov_exp refused: did not converge within the allowed dimension"
+            return r
+        raise
     if case["seed"] % 3 == 0:  # history: the second run of the same backend object is the one judged
         res = cut(backend.run)
         r.label("second_run_of_the_same_backend")
@@ -237,19 +246,23 @@ def check_case(case) -> Result:
     if case["cutoff"] > 0:
         r.label("cutoff")
 
-    model_refs = []
+    model_refs = {}
 
-    def models():
-        """references evolved with a harness model of the implementation's Krylov stopping rule (known finding
-        C07: the estimate uses the norm of A applied to the previous vector); built only when a deviation is seen"""
-        if not model_refs:
+    def models(faithful_expm):
+        """references evolved with a harness model of the implementation's Krylov exponentiation; built only when a
+        deviation is seen.  faithful_expm=False: the implementation's stopping rule (known finding C07: the estimate uses
+        the norm of A applied to the previous vector) with an accurate exponential of the projected matrix;
+        faithful_expm=True: additionally torch.linalg.matrix_exp for that exponential, as the implementation does (known
+        finding C07: accurate to ~1.5e-10 only in a band of norms)"""
+        if faithful_expm not in model_refs:
             from pbt.oracles import krylov_model
 
             def step(A, v):
-                out, conv, _ = krylov_model.krylov_exp_prev_norm(A, v, case["ktol"], hermitian=True)
+                out, conv, _ = krylov_model.krylov_exp_prev_norm(A, v, case["ktol"], hermitian=True,
+                                                                 expm=krylov_model.torch_expm if faithful_expm else None)
                 return out
-            model_refs.extend(reference(case, seq, psi0=psi0, step=step)[0])
-        return model_refs
+            model_refs[faithful_expm] = reference(case, seq, psi0=psi0, step=step)[0]
+        return model_refs[faithful_expm]
 
     def best_err(rs, t_rel, v, ref_value, scale_of):
         best = None
@@ -275,11 +288,18 @@ def check_case(case) -> Result:
                 r.fail("result_at_unrequested_time:" + tag, f"t={t_rel!r}")
                 return
             if not best <= tol + abs_floor:
-                mbest = best_err(models(), t_rel, v, ref_value, scale_of)
+                # attribution: does a faithful model of the implementation's exponentiation reproduce the emulator?  If so,
+                # which of the two known root causes carries the deviation?
+                m_faith = best_err(models(True), t_rel, v, ref_value, scale_of)
+                m_rule = best_err(models(False), t_rel, v, ref_value, scale_of)
                 detail = (f"{tag} t={float(t_rel):.6g} (abs {float(t_rel) * info['T']:.6g} ns): error {best:.3e} > tol {tol:.3e} "
-                          f"(ktol={case['ktol']:g}, steps={nsteps}, n={n}, dt={case['dt']}); distance to the stopping-rule model {mbest:.3e}")
-                if mbest <= 1e-9 + 1e-3 * best:
-                    r.fail("krylov_tolerance_not_met:explained_by_stopping_rule", detail)
+                          f"(ktol={case['ktol']:g}, steps={nsteps}, n={n}, dt={case['dt']}); distance to the faithful model "
+                          f"(stopping rule + torch matrix_exp) {m_faith:.3e}, to the stopping-rule model with an accurate exponential {m_rule:.3e}")
+                if m_faith <= 0.02 * best + 1e-13 * nsteps:
+                    if m_rule <= 0.1 * best:
+                        r.fail("krylov_tolerance_not_met:explained_by_stopping_rule", detail)
+                    else:
+                        r.fail("krylov_tolerance_not_met:explained_by_torch_matrix_exp_accuracy", detail)
                 else:
                     r.fail("differs_from_reference:" + tag, detail)
                 return
